@@ -2,7 +2,7 @@
 use crate::core::*;
 use crate::rig_n::*;
 use crate::wl::*;
-use crate::{vensure, vfail};
+use crate::{api_app, vensure, vfail};
 use serde::{Deserialize, Serialize};
 use async_raft_ext::RaftStorage;
 use serde_json::{json, Value};
@@ -1732,5 +1732,614 @@ impl Check for C19 {
     }
     fn execute(&self, script: Value) -> LocalFut<ExecResult> {
         Box::pin(exec_c19(script))
+    }
+}
+
+// ---------------------------------------------------------------------------
+// C09: config store semantics - last write wins, md5 matches content, listings match the store
+
+pub struct C09;
+
+pub async fn exec_c09(script: Value) -> ExecResult {
+    use crate::http::*;
+    use actix_web::web::Data;
+    use actix_web::App;
+    use rnacos::openapi::middle::auth_middle::ApiCheckAuth;
+    use rnacos::web_config::app_config;
+    use std::ops::Deref;
+    let id = "C09";
+    let seed = script["seed"].as_u64().unwrap_or(1);
+    let cfg: NCfg = serde_json::from_value(script["cfg"].clone()).unwrap_or_default();
+    let steps: Vec<WStep> = match serde_json::from_value(script["steps"].clone()) {
+        Ok(s) => s,
+        Err(e) => return ExecResult { violation: Some(Violation::new("harness.script", e.to_string())), info: RunInfo::default() },
+    };
+    tokio::fs::with_disk(|d| {
+        d.journal_on = false;
+        d.log_ops = false;
+    });
+    net_reset(seed, cfg.net.clone());
+    let root = run_root(seed);
+    let mut rng = Rng::derive(seed, "C09.exec", 0);
+    let mut digest = 0u64;
+    let mut nchecks = 0u64;
+    let r: VResult<()> = async {
+        let n = start_node(&root, 1, true, None, &cfg.node).await.map_err(|e| Violation::new("harness.start", e.to_string()))?;
+        vensure!(wait_leader(&n, 20_000).await.is_some(), &format!("{}.no_leader", id), "single node did not become leader");
+        advance(16_000).await;
+        let app = api_app!(n);
+        let mut m = WModel::default();
+        for (i, st) in steps.iter().enumerate() {
+            let out = do_step(&n, st, &mut m, 30_000).await;
+            match out {
+                OpOutcome::Timeout => vfail!(&format!("{}.op_hang", id), "step {} {:?} did not answer", i, st),
+                OpOutcome::Err(e) => vfail!(&format!("{}.op_failed", id), "step {} {:?} failed on a fault-free single node: {}", i, st, e),
+                _ => {}
+            }
+            let (t, g, d) = match st {
+                WStep::CfgSet { t, g, d, .. } | WStep::CfgDel { t, g, d, .. } => (*t, *g, *d),
+                _ => continue,
+            };
+            let when = format!("after step {} ({:?})", i, st);
+            let ks = key_str(t, g, d);
+            // (1) read-your-write through the actor and through the HTTP handler
+            let got = cfg_get(&n, cfg_key(t, g, d)).await.map_err(|e| Violation::new(&format!("{}.get_failed", id), e.to_string()))?;
+            let want = m.cfg.get(&ks);
+            match (want, &got) {
+                (None, None) => {}
+                (None, Some(v)) => vfail!(&format!("{}.removed_still_served", id), "{}: key {} was removed but GET returns {}", when, ks, trunc(&v.0)),
+                (Some(e), None) => vfail!(&format!("{}.not_found", id), "{}: key {} was published ({}) but GET returns not-found", when, ks, trunc(&e.content)),
+                (Some(e), Some(v)) => {
+                    vensure!(v.0 == e.content, &format!("{}.content", id), "{}: key {} serves {} but the last publish was {}", when, ks, trunc(&v.0), trunc(&e.content));
+                    let md5 = format!("{:x}", md5::compute(e.content.as_bytes()));
+                    vensure!(v.1 == md5, &format!("{}.md5", id), "{}: key {} md5 {} but md5(content) = {}", when, ks, v.1, md5);
+                    vensure!(v.2 == e.typ && v.3 == e.desc, &format!("{}.type_desc", id), "{}: key {} type/desc {:?}/{:?}, published {:?}/{:?}", when, ks, v.2, v.3, e.typ, e.desc);
+                }
+            }
+            let uri = format!("/nacos/v1/cs/configs?dataId={}&group={}&tenant={}", urlencode(DATA_IDS[d as usize % 5]), urlencode(GROUPS[g as usize % 2]), urlencode(TENANTS[t as usize % 3]));
+            let resp = call(&app, "GET", &uri, &[], None).await;
+            match want {
+                None => vensure!(resp.status == 404, &format!("{}.http_removed_still_served", id), "{}: HTTP GET {} answers {} for a removed key", when, uri, resp.status),
+                Some(e) => {
+                    vensure!(resp.status == 200 && resp.text() == e.content, &format!("{}.http_content", id), "{}: HTTP GET {} answers {} with {} but the last publish was {}", when, uri, resp.status, trunc(&resp.text()), trunc(&e.content));
+                    let md5 = format!("{:x}", md5::compute(e.content.as_bytes()));
+                    let h = resp.headers.iter().find(|(k, _)| k == "content-md5").map(|(_, v)| v.clone());
+                    vensure!(h.as_deref() == Some(md5.as_str()), &format!("{}.http_md5", id), "{}: HTTP content-md5 {:?} but md5(content) = {}", when, h, md5);
+                }
+            }
+            // (2) listing with a PRNG filter and page size: every stored key exactly once, correct totals
+            let tenant = TENANTS[rng.below(3) as usize];
+            let gf = rng.below(3);
+            let df = rng.below(3);
+            let group_exact = if gf == 1 { Some(GROUPS[rng.below(2) as usize].to_string()) } else { None };
+            let group_like = if gf == 2 { Some(rng.pick(&["g", "GROUP", "2", "DEFAULT_GROUP"]).to_string()) } else { None };
+            let data_exact = if df == 1 { Some(DATA_IDS[rng.below(5) as usize].to_string()) } else { None };
+            let data_like = if df == 2 { Some(rng.pick(&["app", ".yaml", "a", "conf", "x", "yaml.b"]).to_string()) } else { None };
+            let mut want_keys: Vec<(String, String, String)> = vec![];
+            for (k, _) in &m.cfg {
+                let parts: Vec<&str> = k.split('|').collect();
+                if parts[0] != tenant {
+                    continue;
+                }
+                if let Some(ge) = &group_exact {
+                    if parts[1] != ge {
+                        continue;
+                    }
+                }
+                if let Some(gl) = &group_like {
+                    if !parts[1].contains(gl.as_str()) {
+                        continue;
+                    }
+                }
+                if let Some(de) = &data_exact {
+                    if parts[2] != de {
+                        continue;
+                    }
+                }
+                if let Some(dl) = &data_like {
+                    if !parts[2].contains(dl.as_str()) {
+                        continue;
+                    }
+                }
+                want_keys.push((parts[0].to_string(), parts[1].to_string(), parts[2].to_string()));
+            }
+            want_keys.sort();
+            let limit = rng.range(1, 7) as usize;
+            let mut seen: Vec<(String, String, String)> = vec![];
+            let mut offset = 0usize;
+            loop {
+                let p = rnacos::config::config_index::ConfigQueryParam {
+                    tenant: Some(Arc::new(tenant.to_string())),
+                    group: group_exact.clone().map(Arc::new),
+                    data_id: data_exact.clone().map(Arc::new),
+                    like_group: group_like.clone(),
+                    like_data_id: data_like.clone(),
+                    namespace_privilege: rnacos::common::model::privilege::NamespacePrivilegeGroup::new(rnacos::common::model::privilege::PrivilegeGroup::all()),
+                    query_context: true,
+                    offset,
+                    limit,
+                };
+                let (total, page) = match n.app.config_addr.send(rnacos::config::core::ConfigCmd::QueryPageInfo(Box::new(p))).await {
+                    Ok(Ok(rnacos::config::core::ConfigResult::ConfigInfoPage(total, list))) => (total, list),
+                    _ => vfail!(&format!("{}.list_failed", id), "{}: listing failed", when),
+                };
+                vensure!(total == want_keys.len(), &format!("{}.list_total", id), "{}: listing tenant={:?} group={:?}/{:?} dataId={:?}/{:?} reports total {} at offset {} but {} keys match", when, tenant, group_exact, group_like, data_exact, data_like, total, offset, want_keys.len());
+                vensure!(page.len() <= limit, &format!("{}.list_page", id), "{}: page of {} items for limit {}", when, page.len(), limit);
+                for c in &page {
+                    let k = (c.tenant.as_ref().clone(), c.group.as_ref().clone(), c.data_id.as_ref().clone());
+                    // content delivered with the listing equals the stored content
+                    if let Some(e) = m.cfg.get(&format!("{}|{}|{}", k.0, k.1, k.2)) {
+                        if let Some(c2) = &c.content {
+                            vensure!(c2.as_str() == e.content, &format!("{}.list_content", id), "{}: listing delivers {} for {:?} but the store holds {}", when, trunc(c2), k, trunc(&e.content));
+                        }
+                    }
+                    seen.push(k);
+                }
+                offset += limit;
+                if page.is_empty() || offset >= total + limit {
+                    break;
+                }
+            }
+            let mut sorted = seen.clone();
+            sorted.sort();
+            let dedup_len = {
+                let mut d2 = sorted.clone();
+                d2.dedup();
+                d2.len()
+            };
+            vensure!(dedup_len == sorted.len(), &format!("{}.list_duplicate", id), "{}: a key appears more than once over the pages (limit {}): {:?}", when, limit, seen);
+            vensure!(sorted == want_keys, &format!("{}.list_mismatch", id), "{}: listing tenant={:?} group={:?}/{:?} dataId={:?}/{:?} over pages of {} returns {:?} but the store holds {:?}", when, tenant, group_exact, group_like, data_exact, data_like, limit, sorted, want_keys);
+            nchecks += 1;
+            // the HTTP search endpoint agrees on the total
+            let mode = if group_like.is_some() || data_like.is_some() { "blur" } else { "accurate" };
+            let uri = format!(
+                "/nacos/v1/cs/configs?search={}&tenant={}&group={}&dataId={}&pageNo=1&pageSize={}",
+                mode,
+                urlencode(tenant),
+                urlencode(group_exact.as_deref().or(group_like.as_deref()).unwrap_or("")),
+                urlencode(data_exact.as_deref().or(data_like.as_deref()).unwrap_or("")),
+                limit
+            );
+            // (the HTTP endpoint treats both filters as exact or both as substring patterns)
+            let mixed = (group_like.is_some() && data_exact.is_some()) || (group_exact.is_some() && data_like.is_some());
+            let resp = call(&app, "GET", &uri, &[], None).await;
+            if let (false, Ok(v)) = (mixed, serde_json::from_slice::<Value>(&resp.body)) {
+                if let Some(tc) = v["totalCount"].as_u64() {
+                    vensure!(tc as usize == want_keys.len(), &format!("{}.http_list_total", id), "{}: HTTP {} reports totalCount {} but {} keys match", when, uri, tc, want_keys.len());
+                }
+            }
+            // (3) history of the touched key with PRNG paging
+            if let Some(e) = want {
+                let mut wanth: Vec<String> = e.history.clone();
+                wanth.reverse();
+                wanth.truncate(100);
+                let lim = rng.range(1, 30) as i64;
+                let off = rng.range(0, 5) as i64;
+                let (total, page) = cfg_history(&n, (t, g, d), lim, off).await.map_err(|e| Violation::new(&format!("{}.history_failed", id), e.to_string()))?;
+                vensure!(total == wanth.len(), &format!("{}.history_total", id), "{}: history of {} reports {} entries, expected {} (one per content change, capped at 100)", when, ks, total, wanth.len());
+                let exp: Vec<String> = wanth.iter().skip(off as usize).take(lim as usize).cloned().collect();
+                let have: Vec<String> = page.iter().map(|x| x.1.clone()).collect();
+                vensure!(have == exp, &format!("{}.history_page", id), "{}: history page (offset {}, limit {}) of {} is {:?}, expected {:?}", when, off, lim, ks, have.iter().map(|s| trunc(s)).collect::<Vec<_>>(), exp.iter().map(|s| trunc(s)).collect::<Vec<_>>());
+                if e.history.len() > 100 {
+                    sim::count("probe.history_cap_reached", 1);
+                }
+            }
+        }
+        let o = observe(&n, "fin").await.map_err(|e| Violation::new(&format!("{}.observe_failed", id), e.to_string()))?;
+        check_cfg_model(id, &o, &m, "at the end")?;
+        digest = obs_digest(&o);
+        Ok(())
+    }
+    .await;
+    let info = RunInfo { digest, nontrivial: nchecks >= 5, info: json!({"listing_checks": nchecks}), findings: vec![] };
+    for n in live_nodes() {
+        kill_node(n.id).await;
+    }
+    ExecResult { violation: r.err(), info }
+}
+
+impl Check for C09 {
+    fn id(&self) -> &'static str {
+        "C09"
+    }
+    fn generate(&self, seed: u64, _tier: Tier) -> Value {
+        let mut rng = Rng::derive(seed, "C09.gen", 0);
+        let mut cfg = NCfg::default();
+        cfg.nodes = 1;
+        cfg.node.snapshot_log_size = 10_000;
+        let n = rng.range(8, 80);
+        let mut steps = vec![];
+        let hammer = if rng.chance(0.08) { Some((rng.below(3) as u8, rng.below(2) as u8, rng.below(5) as u8)) } else { None };
+        for _ in 0..n {
+            let t = rng.below(3) as u8;
+            let g = rng.below(2) as u8;
+            let d = rng.below(5) as u8;
+            if rng.chance(0.8) {
+                steps.push(WStep::CfgSet { node: 1, t, g, d, size: *rng.pick(&[0u32, 1, 10, 40, 200, 5000, 200_000]), same: rng.chance(0.2), typ: rng.below(4) as u8, desc: rng.below(3) as u8 });
+            } else {
+                steps.push(WStep::CfgDel { node: 1, t, g, d });
+            }
+        }
+        if let Some((t, g, d)) = hammer {
+            // more than 100 content changes on one key: the history cap
+            for _ in 0..rng.range(101, 130) {
+                steps.push(WStep::CfgSet { node: 1, t, g, d, size: 5, same: false, typ: 0, desc: 0 });
+            }
+        }
+        json!({"check": "C09", "seed": seed, "cfg": cfg, "steps": steps})
+    }
+    fn execute(&self, script: Value) -> LocalFut<ExecResult> {
+        Box::pin(exec_c09(script))
+    }
+}
+
+// ---------------------------------------------------------------------------
+// C10: config change notification is complete
+
+pub struct C10;
+
+#[derive(Serialize, Deserialize, Clone, Debug, PartialEq)]
+#[serde(tag = "op")]
+pub enum LStep10 {
+    /// HTTP long poll on keys; held md5 per key: 0 = current, 1 = stale (md5 of something else), 2 = empty
+    Listen { keys: Vec<u8>, held: Vec<u8>, timeout_ms: u64, gap_ms: u64 },
+    Sub { client: u8, keys: Vec<u8>, held: Vec<u8> },
+    Unsub { client: u8, keys: Vec<u8> },
+    Close { client: u8 },
+    Pub { k: u8, same: bool, gap_ms: u64 },
+    Del { k: u8, gap_ms: u64 },
+    Advance { ms: u64 },
+}
+
+#[derive(Clone, Debug)]
+struct Change {
+    t_us: u64,
+    seq: u64,
+    k: u8,
+    md5: String,
+}
+
+#[derive(Clone, Debug)]
+struct LRec {
+    step: usize,
+    items: Vec<(u8, String)>,
+    t0: u64,
+    seq0: u64,
+    t1: Option<u64>,
+    seq1: u64,
+    status: u16,
+    keys_named: Vec<u8>,
+    timeout_eff_ms: u64,
+}
+
+fn md5_of(c: &Option<String>) -> String {
+    match c {
+        Some(c) => format!("{:x}", md5::compute(c.as_bytes())),
+        None => String::new(),
+    }
+}
+
+pub async fn exec_c10(script: Value) -> ExecResult {
+    use crate::http::*;
+    use actix_web::web::Data;
+    use actix_web::App;
+    use rnacos::grpc::{PayloadHandler, PayloadUtils, RequestMeta};
+    use rnacos::openapi::middle::auth_middle::ApiCheckAuth;
+    use rnacos::web_config::app_config;
+    use std::cell::RefCell;
+    use std::ops::Deref;
+    use std::rc::Rc as LRc;
+    let id = "C10";
+    let seed = script["seed"].as_u64().unwrap_or(1);
+    let cfg: NCfg = serde_json::from_value(script["cfg"].clone()).unwrap_or_default();
+    let steps: Vec<LStep10> = match serde_json::from_value(script["steps"].clone()) {
+        Ok(s) => s,
+        Err(e) => return ExecResult { violation: Some(Violation::new("harness.script", e.to_string())), info: RunInfo::default() },
+    };
+    tokio::fs::with_disk(|d| {
+        d.journal_on = false;
+        d.log_ops = false;
+    });
+    net_reset(seed, cfg.net.clone());
+    let root = run_root(seed);
+    let notifs: LRc<RefCell<Vec<(u64, u64, String, Vec<String>)>>> = LRc::new(RefCell::new(vec![]));
+    {
+        let n2 = notifs.clone();
+        rnacos::verif_hook::set_tap(Box::new(move |name: &str, detail: String| {
+            if name == "config_notify" {
+                let mut it = detail.splitn(2, '|');
+                let key = it.next().unwrap_or("").to_string();
+                let clients: Vec<String> = it.next().unwrap_or("").split(',').filter(|s| !s.is_empty()).map(|s| s.to_string()).collect();
+                n2.borrow_mut().push((sim::now_us(), sim::ev_seq(), key, clients));
+            }
+        }));
+    }
+    let lrecs: LRc<RefCell<Vec<LRec>>> = LRc::new(RefCell::new(vec![]));
+    let mut digest = 0u64;
+    let r: VResult<()> = async {
+        let n = start_node(&root, 1, true, None, &cfg.node).await.map_err(|e| Violation::new("harness.start", e.to_string()))?;
+        vensure!(wait_leader(&n, 20_000).await.is_some(), &format!("{}.no_leader", id), "single node did not become leader");
+        advance(16_000).await;
+        let app = LRc::new(api_app!(n));
+        let mut cur: BTreeMap<u8, Option<String>> = BTreeMap::new();
+        let mut changes: Vec<Change> = vec![];
+        let mut uniq = 0u64;
+        // subscriptions: client -> key -> (from seq, until seq)
+        let mut subs: BTreeMap<(u8, u8), (u64, Option<u64>)> = BTreeMap::new();
+        let mut sub_windows: Vec<(u8, u8, u64, u64)> = vec![];
+        let mut handles = vec![];
+        let mut notif_done = 0usize;
+        let data_id = |k: u8| DATA_IDS[(k % 4) as usize];
+        for (i, st) in steps.iter().enumerate() {
+            sim::event(&format!("step {} {}", i, serde_json::to_string(st).unwrap_or_default()));
+            match st {
+                LStep10::Listen { keys, held, timeout_ms, gap_ms } => {
+                    let mut items = vec![];
+                    let mut body = String::new();
+                    for (j, k) in keys.iter().enumerate() {
+                        let k = *k % 4;
+                        let c = cur.get(&k).cloned().flatten();
+                        let md5 = match held.get(j).copied().unwrap_or(0) {
+                            0 => md5_of(&c),
+                            1 => format!("{:x}", md5::compute(format!("stale{}", i).as_bytes())),
+                            _ => String::new(),
+                        };
+                        items.push((k, md5.clone()));
+                        body.push_str(&format!("{}\u{2}{}\u{2}{}\u{1}", data_id(k), "DEFAULT_GROUP", md5));
+                    }
+                    let form = serde_urlencoded::to_string([("Listening-Configs", body.as_str())]).unwrap_or_default();
+                    let idx = {
+                        let mut l = lrecs.borrow_mut();
+                        l.push(LRec { step: i, items, t0: sim::now_us(), seq0: sim::ev_seq(), t1: None, seq1: u64::MAX, status: 0, keys_named: vec![], timeout_eff_ms: (*timeout_ms).clamp(10_000, 120_000) - 500 });
+                        l.len() - 1
+                    };
+                    let app2 = app.clone();
+                    let lrecs2 = lrecs.clone();
+                    let to = timeout_ms.to_string();
+                    handles.push(actix_rt::spawn(async move {
+                        let resp = call(&*app2, "POST", "/nacos/v1/cs/configs/listener", &[("Long-Pulling-Timeout", to.as_str())], Some(("application/x-www-form-urlencoded", form.into_bytes()))).await;
+                        let mut l = lrecs2.borrow_mut();
+                        let rec = &mut l[idx];
+                        rec.t1 = Some(sim::now_us());
+                        rec.seq1 = sim::ev_seq();
+                        rec.status = resp.status;
+                        let text = resp.text();
+                        let decoded: String = serde_urlencoded::from_str::<Vec<(String, String)>>(&format!("x={}", text)).ok().and_then(|v| v.into_iter().next()).map(|x| x.1).unwrap_or(text);
+                        for part in decoded.split('\u{1}') {
+                            let f: Vec<&str> = part.split('\u{2}').collect();
+                            if f.len() >= 2 {
+                                if let Some(p) = DATA_IDS.iter().position(|d| *d == f[0]) {
+                                    rec.keys_named.push(p as u8);
+                                }
+                            }
+                        }
+                        sim::event(&format!("listener {} answered {:?}", idx, rec.keys_named));
+                    }));
+                    advance(*gap_ms).await;
+                }
+                LStep10::Sub { client, keys, .. } | LStep10::Unsub { client, keys } => {
+                    let is_sub = matches!(st, LStep10::Sub { .. });
+                    let held_v: Vec<u8> = if let LStep10::Sub { held, .. } = st { held.clone() } else { vec![] };
+                    let mut ctxs = vec![];
+                    for (j, k) in keys.iter().enumerate() {
+                        let k = *k % 4;
+                        let c = cur.get(&k).cloned().flatten();
+                        let md5 = match held_v.get(j).copied().unwrap_or(0) {
+                            0 => md5_of(&c),
+                            1 => "0123456789abcdef0123456789abcdef".to_string(),
+                            _ => String::new(),
+                        };
+                        ctxs.push(json!({"dataId": data_id(k), "group": "DEFAULT_GROUP", "tenant": "", "md5": md5}));
+                    }
+                    let req = json!({"listen": is_sub, "configListenContexts": ctxs});
+                    let payload = PayloadUtils::build_payload("ConfigBatchListenRequest", req.to_string());
+                    let cid = Arc::new(format!("1_conn{}", client % 3));
+                    let meta = RequestMeta { connection_id: cid.clone(), client_ip: "10.2.0.9".to_string(), ..Default::default() };
+                    let res = n.invoker.handle(payload, meta).await;
+                    vensure!(res.map(|r| r.success).unwrap_or(false), &format!("{}.subscribe_failed", id), "step {}: batch listen request refused", i);
+                    let seq = sim::ev_seq();
+                    for k in keys {
+                        let k = *k % 4;
+                        if is_sub {
+                            subs.entry((*client % 3, k)).or_insert((seq, None));
+                        } else if let Some((from, _)) = subs.remove(&(*client % 3, k)) {
+                            sub_windows.push((*client % 3, k, from, seq));
+                        }
+                    }
+                }
+                LStep10::Close { client } => {
+                    let cid = Arc::new(format!("1_conn{}", client % 3));
+                    n.app.bi_stream_manage.do_send(rnacos::grpc::bistream_manage::BiStreamManageCmd::ConnClose(cid));
+                    advance(5).await;
+                    let seq = sim::ev_seq();
+                    let ks: Vec<(u8, u8)> = subs.keys().filter(|(c, _)| *c == *client % 3).cloned().collect();
+                    for key in ks {
+                        if let Some((from, _)) = subs.remove(&key) {
+                            sub_windows.push((key.0, key.1, from, seq));
+                        }
+                    }
+                }
+                LStep10::Pub { k, same, gap_ms } => {
+                    let k = *k % 4;
+                    let content = if *same && cur.get(&k).cloned().flatten().is_some() {
+                        cur.get(&k).cloned().flatten().unwrap()
+                    } else {
+                        uniq += 1;
+                        format!("n{}", uniq)
+                    };
+                    let before = md5_of(&cur.get(&k).cloned().flatten());
+                    let seq_before = sim::ev_seq();
+                    let req = rnacos::raft::cluster::model::SetConfigReq::new(cfg_key(0, 0, k), Arc::new(content.clone()));
+                    match within(20_000, n.app.config_route.set_config(req)).await {
+                        Some(Ok(())) => {}
+                        other => vfail!(&format!("{}.publish_failed", id), "step {}: publish failed: {:?}", i, other.map(|r| r.map_err(|e| e.to_string()))),
+                    }
+                    cur.insert(k, Some(content.clone()));
+                    let after = md5_of(&Some(content));
+                    if after != before {
+                        sim::event(&format!("change k{}", k));
+                        changes.push(Change { t_us: sim::now_us(), seq: seq_before, k, md5: after });
+                    }
+                    advance(*gap_ms).await;
+                }
+                LStep10::Del { k, gap_ms } => {
+                    let k = *k % 4;
+                    let before = md5_of(&cur.get(&k).cloned().flatten());
+                    let seq_before = sim::ev_seq();
+                    match within(20_000, n.app.config_route.del_config(rnacos::raft::cluster::model::DelConfigReq::new(cfg_key(0, 0, k)))).await {
+                        Some(Ok(())) => {}
+                        other => vfail!(&format!("{}.remove_failed", id), "step {}: remove failed: {:?}", i, other.map(|r| r.map_err(|e| e.to_string()))),
+                    }
+                    cur.insert(k, None);
+                    if !before.is_empty() {
+                        sim::event(&format!("change k{}", k));
+                        changes.push(Change { t_us: sim::now_us(), seq: seq_before, k, md5: String::new() });
+                    }
+                    advance(*gap_ms).await;
+                }
+                LStep10::Advance { ms } => advance(*ms).await,
+                _ => {}
+            }
+            // what an SDK does on a change notification: query the key and listen again with the md5 it now
+            // holds (the server drops the subscriptions of a key when the key is removed)
+            if matches!(st, LStep10::Pub { .. } | LStep10::Del { .. }) {
+                let new: Vec<(String, Vec<String>)> = notifs.borrow().iter().skip(notif_done).map(|x| (x.2.clone(), x.3.clone())).collect();
+                notif_done = notifs.borrow().len();
+                for (key, clients) in new {
+                    let k = match (0..4u8).find(|k| cfg_key(0, 0, *k).build_key() == key) {
+                        Some(k) => k,
+                        None => continue,
+                    };
+                    for cl in clients {
+                        let c: u8 = cl.trim_start_matches("1_conn").parse().unwrap_or(9);
+                        if !subs.contains_key(&(c, k)) {
+                            continue;
+                        }
+                        let md5 = md5_of(&cur.get(&k).cloned().flatten());
+                        let req = json!({"listen": true, "configListenContexts": [{"dataId": data_id(k), "group": "DEFAULT_GROUP", "tenant": "", "md5": md5}]});
+                        let payload = PayloadUtils::build_payload("ConfigBatchListenRequest", req.to_string());
+                        let meta = RequestMeta { connection_id: Arc::new(cl.clone()), client_ip: "10.2.0.9".to_string(), ..Default::default() };
+                        let _ = n.invoker.handle(payload, meta).await;
+                        sim::count("probe.sdk_relisten_after_notify", 1);
+                    }
+                }
+            }
+        }
+        // every long poll ends by itself (at most 120 s)
+        for h in handles {
+            if within(140_000, h).await.is_none() {
+                vfail!(&format!("{}.listener_never_answered", id), "a long-poll listener was not answered within 140 simulated s");
+            }
+        }
+        let end_seq = sim::ev_seq();
+        for ((c, k), (from, _)) in subs.clone() {
+            sub_windows.push((c, k, from, end_seq));
+        }
+        // long-poll obligations
+        let slack_us = 700_000u64;
+        for (li, l) in lrecs.borrow().iter().enumerate() {
+            let t1 = match l.t1 {
+                Some(t) => t,
+                None => vfail!(&format!("{}.listener_never_answered", id), "listener {} (step {}) never returned", li, l.step),
+            };
+            vensure!(l.status == 200, &format!("{}.listener_status", id), "listener {} (step {}) got HTTP status {}", li, l.step, l.status);
+            // md5 current at accept time
+            let md5_at = |k: u8, seq: u64| -> String {
+                changes.iter().filter(|c| c.k == k && c.seq < seq).last().map(|c| c.md5.clone()).unwrap_or_default()
+            };
+            let stale: Vec<u8> = l.items.iter().filter(|(k, held)| md5_at(*k, l.seq0) != *held).map(|(k, _)| *k).collect();
+            if !stale.is_empty() {
+                vensure!(t1 <= l.t0 + slack_us, &format!("{}.stale_not_immediate", id), "listener {} (step {}) held a stale md5 for keys {:?} when it registered but was answered only after {} ms", li, l.step, stale, (t1 - l.t0) / 1000);
+                for k in &stale {
+                    vensure!(l.keys_named.contains(k), &format!("{}.stale_key_not_named", id), "listener {} (step {}) held a stale md5 for key {} but the answer names only {:?}", li, l.step, k, l.keys_named);
+                }
+                sim::count("probe.listener_stale_at_accept", 1);
+                continue;
+            }
+            // first later change of a listened key
+            // (a listener that had already been answered - e.g. woken by the removal of an absent key - owes nothing)
+            let first = changes.iter().filter(|c| c.seq >= l.seq0 && c.seq < l.seq1 && l.items.iter().any(|(k, held)| *k == c.k && *held != c.md5)).next();
+            let deadline = l.t0 + l.timeout_eff_ms * 1000;
+            match first {
+                Some(c) if c.t_us <= deadline => {
+                    vensure!(t1 <= c.t_us + slack_us, &format!("{}.change_not_reported", id), "listener {} (step {}) was waiting on key {} when it changed at t={} ms but was answered only at t={} ms (timeout would have been at {} ms)", li, l.step, c.k, c.t_us / 1000, t1 / 1000, deadline / 1000);
+                    vensure!(l.keys_named.contains(&c.k), &format!("{}.change_not_named", id), "listener {} (step {}): key {} changed while it was waiting, the answer names {:?}", li, l.step, c.k, l.keys_named);
+                    sim::count("probe.listener_woken_by_change", 1);
+                }
+                _ => {
+                    vensure!(t1 <= deadline + 500_000 + slack_us, &format!("{}.timeout_overrun", id), "listener {} (step {}) with effective timeout {} ms was answered after {} ms", li, l.step, l.timeout_eff_ms, (t1 - l.t0) / 1000);
+                    sim::count("probe.listener_timed_out", 1);
+                }
+            }
+        }
+        // subscriber obligations: every change of a subscribed key inside the window reaches the client; none after close
+        let notifs = notifs.borrow().clone();
+        for (c, k, from, until) in &sub_windows {
+            let key_s = cfg_key(0, 0, *k).build_key();
+            let client = format!("1_conn{}", c);
+            for ch in changes.iter().filter(|ch| ch.k == *k && ch.seq > *from && ch.seq < *until) {
+                let hit = notifs.iter().any(|(_, seq, key, clients)| *key == key_s && *seq >= ch.seq && clients.contains(&client) && *seq <= ch.seq + 400);
+                vensure!(hit, &format!("{}.subscriber_not_notified", id), "client {} subscribed key {} (events {}..{}); the change at event {} produced no notification for it", client, k, from, until, ch.seq);
+                sim::count("probe.subscriber_notified", 1);
+            }
+        }
+        for (_, seq, key, clients) in &notifs {
+            for cl in clients {
+                // a notification for a client must fall inside one of its windows for that key
+                let c: u8 = cl.trim_start_matches("1_conn").parse().unwrap_or(9);
+                let ok = sub_windows.iter().any(|(wc, wk, from, until)| *wc == c && cfg_key(0, 0, *wk).build_key() == *key && *seq >= *from && *seq <= *until + 5);
+                vensure!(ok, &format!("{}.notified_after_unsubscribe", id), "client {} was notified about {} at event {} outside of any subscription window", cl, key.replace('\u{2}', "|"), seq);
+            }
+        }
+        digest = digest_str(&format!("{:?}", lrecs.borrow().iter().map(|l| (l.keys_named.clone(), l.t1.map(|t| t / 100_000))).collect::<Vec<_>>()));
+        Ok(())
+    }
+    .await;
+    let nl = lrecs.borrow().len();
+    let info = RunInfo { digest, nontrivial: nl >= 2, info: json!({"listeners": nl}), findings: vec![] };
+    rnacos::verif_hook::clear_tap();
+    for n in live_nodes() {
+        kill_node(n.id).await;
+    }
+    ExecResult { violation: r.err(), info }
+}
+
+impl Check for C10 {
+    fn id(&self) -> &'static str {
+        "C10"
+    }
+    fn generate(&self, seed: u64, _tier: Tier) -> Value {
+        let mut rng = Rng::derive(seed, "C10.gen", 0);
+        let mut cfg = NCfg::default();
+        cfg.nodes = 1;
+        let n = rng.range(6, 40);
+        let mut steps = vec![];
+        for _ in 0..n {
+            let r = rng.below(100);
+            let gap = *rng.pick(&[0u64, 0, 1, 3, 50, 700, 4000]);
+            let nk = rng.range(1, 4) as usize;
+            let keys: Vec<u8> = (0..nk).map(|_| rng.below(4) as u8).collect();
+            let held: Vec<u8> = (0..nk).map(|_| *rng.pick(&[0u8, 0, 0, 1, 2])).collect();
+            let st = if r < 30 {
+                LStep10::Listen { keys, held, timeout_ms: *rng.pick(&[500u64, 10_000, 12_000, 30_000]), gap_ms: gap }
+            } else if r < 40 {
+                LStep10::Sub { client: rng.below(3) as u8, keys, held }
+            } else if r < 44 {
+                LStep10::Unsub { client: rng.below(3) as u8, keys }
+            } else if r < 48 {
+                LStep10::Close { client: rng.below(3) as u8 }
+            } else if r < 80 {
+                LStep10::Pub { k: rng.below(4) as u8, same: rng.chance(0.15), gap_ms: gap }
+            } else if r < 90 {
+                LStep10::Del { k: rng.below(4) as u8, gap_ms: gap }
+            } else {
+                LStep10::Advance { ms: *rng.pick(&[100u64, 1000, 9000, 15000]) }
+            };
+            steps.push(st);
+        }
+        json!({"check": "C10", "seed": seed, "cfg": cfg, "steps": steps})
+    }
+    fn execute(&self, script: Value) -> LocalFut<ExecResult> {
+        Box::pin(exec_c10(script))
     }
 }
